@@ -6,7 +6,7 @@ CONSTANTS
   Promote = TRUE
   MaxDepth = 5
   MinSize = 10
-  Sample = 23
+  Sample = 151
 VIEW View
 INVARIANTS InvOIUsd InvOITokens InvCollateral InvRemoved InvEmit
 CHECK_DEADLOCK FALSE
